@@ -8,7 +8,7 @@ import torch
 import torchtt
 
 from rt_common import (as_matrix, case_id, clause, contract, dense, dtype_of, fro, rand_tt, seed_all,
-                       shape_of, within)
+                       shape_of, snapshot_tt, frozen, unchanged_named, within)
 
 C = 100.0
 COND_MAX = 1e3
@@ -31,8 +31,26 @@ def _well_conditioned(A):
     return Am.shape[0] == Am.shape[1] and float(torch.linalg.cond(Am)) <= COND_MAX
 
 
+def _residual_old(result, OLD, eps):
+    """residual w.r.t. the operands AS THEY WERE BEFORE the call (a call that overwrites b must not pass trivially)."""
+    Am = as_matrix(frozen(OLD.A))
+    bd = dense(frozen(OLD.b)).reshape(-1)
+    xd = dense(result).reshape(-1)
+    if xd.numel() != bd.numel():
+        return False, "solution has %d entries, rhs has %d" % (xd.numel(), bd.numel())
+    res = fro(Am @ xd - bd)
+    nb = fro(bd)
+    return within(res, C * eps * nb, "||A x - b|| (C=%g, eps=%g, ||b||=%.3e, relative residual %.3e, ranks of x %s)" % (
+        C, eps, nb, res / nb if nb else float("nan"), list(result.R)))
+
+
 @contract
-@clause("residual", lambda result, A, b, eps: _residual(result, A, b, eps))
+@icontract.snapshot(lambda x0: snapshot_tt(x0), name="x0")
+@icontract.snapshot(lambda A: snapshot_tt(A), name="A")
+@icontract.snapshot(lambda b: snapshot_tt(b), name="b")
+@clause("guess_unchanged", lambda OLD, x0, A, b: unchanged_named(
+    [("x0 (initial guess)", OLD.x0, x0), ("A", OLD.A, A), ("b", OLD.b, b)]))
+@clause("residual", lambda result, OLD, eps: _residual_old(result, OLD, eps))
 @clause("finite", lambda result: (all(bool(torch.isfinite(c).all()) for c in result.cores), "solution contains NaN/Inf"))
 @clause("shape", lambda result, b: ((not result.is_ttm) and shape_of(result) == list(b.N),
                                     "expected TT tensor of shape %s, got %s" % (list(b.N), shape_of(result))))
@@ -89,17 +107,31 @@ def run_case(a, check):
     seed_all(a["seed"])
     A = build_operator(a["kind"], N, a["rA"], dt)
     b = rand_tt(torchtt, N, a["rb"], dt)
-    x0 = None if a["x0"] is None else torchtt.random(N, a["x0"], dtype=dt)
+    if a["x0"] is None:
+        x0 = None
+    elif a["x0"] == "b":
+        x0 = b                      # round 3: the right-hand side object itself is passed as initial guess
+    else:
+        x0 = torchtt.random(N, a["x0"], dtype=dt)
     seed_all(a["seed"] + 7919)
-    check(None, lambda: amen_solve(A, b, a["eps"], x0, a["prec"], a["max_full"], a["local_solver"]))
+    if a.get("twice"):
+        # round 3: one guess object re-used for two solves
+        check("first", lambda: amen_solve(A, b, a["eps"], x0, a["prec"], a["max_full"], a["local_solver"]))
+        seed_all(a["seed"] + 2 * 7919)
+        check("second", lambda: amen_solve(A, b, a["eps"], x0, a["prec"], a["max_full"], a["local_solver"]))
+    else:
+        check(None, lambda: amen_solve(A, b, a["eps"], x0, a["prec"], a["max_full"], a["local_solver"]))
 
 
-def _mk(kind, N, rA, rb, eps, x0, prec, max_full, local_solver, seed):
+def _mk(kind, N, rA, rb, eps, x0, prec, max_full, local_solver, seed, twice=False):
     a = {"op": "amen_solve", "kind": kind, "N": list(N), "rA": rA, "rb": rb, "eps": eps, "x0": x0, "prec": prec,
          "max_full": max_full, "local_solver": local_solver, "seed": seed, "dtype": "float64"}
     a["id"] = case_id("amen_solve", kind, "N=%s" % str(list(N)).replace(" ", ""), "rA=%d" % rA, "rb=%d" % rb,
-                      "eps=%g" % eps, "x0=%s" % ("none" if x0 is None else "rank%d" % x0),
+                      "eps=%g" % eps, "x0=%s" % ("none" if x0 is None else ("b" if x0 == "b" else "rank%d" % x0)),
                       "prec=%s" % prec, "max_full=%d" % max_full, "ls=%d" % local_solver, "seed=%d" % seed)
+    if twice:
+        a["twice"] = True
+        a["id"] += ".twice"
     return a
 
 
@@ -133,6 +165,17 @@ def enumerate_cases(tier, seed):
                                 if not quick and len(N) >= 5 and (s != seeds[0] or x0 == 1):
                                     continue
                                 cases.append(_mk(kind, N, rA, rb, eps, x0, p, mf, ls, s))
+    # round 3: x0 = b (the same object) and one x0 object re-used for two consecutive solves
+    r3_shapes = shapes[:4] if quick else shapes
+    r3_combos = [(None, 500, 1), (None, 0, 1), ("c", 0, 2), ("r", 0, 1)]
+    for kind, rA in kinds:
+        for N in r3_shapes:
+            for eps in eps_list:
+                for (p, mf, ls) in r3_combos:
+                    for s in seeds[:1] if quick else seeds[:2]:
+                        cases.append(_mk(kind, N, rA, rbs[-1], eps, "b", p, mf, ls, s))
+                        cases.append(_mk(kind, N, rA, rbs[-1], eps, "b", p, mf, ls, s, twice=True))
+                        cases.append(_mk(kind, N, rA, rbs[-1], eps, 2, p, mf, ls, s, twice=True))
     return cases
 
 
@@ -145,7 +188,12 @@ def bound(tier, seed):
                 "torchtt.random rank 2}; preconditioner in {None,'c','r'} x max_full in {0,500} x local_solver in {1,2} (all "
                 "12 combinations); seeds {%d, 1}; float64; other arguments at library defaults (nswp=22, kickrank=4). "
                 "Precondition checked at run time: cond(A) <= 1e3. Contract: x is a TT tensor with N == b.N, finite, "
-                "||A x - b|| <= 100*eps*||b|| (dense residual)." % seed)
+                "||A x - b|| <= 100*eps*||b|| (dense residual, A and b taken from snapshots made BEFORE the call); clause "
+                "guess_unchanged: x0, A and b are bit-for-bit what they were before the call (number of cores, core shapes, R/N, "
+                "entries). ROUND-3 FAMILY: for the first 4 shapes, every operator kind and eps, (prec,max_full,local_solver) in "
+                "{(None,500,1),(None,0,1),('c',0,2),('r',0,1)}: x0 = b (the very same object), x0 = b solved twice, and one random "
+                "rank-2 x0 object re-used for two consecutive solves (each solve is one contract evaluation)." % seed)
     return ("C12 thorough: shapes of order 2..5 with mode sizes 2..12 (10 shapes), operators spd(rank-1 B), dd (rank 1 and 3 B), "
             "lap; rhs ranks {1,4}; eps in {1e-3,1e-6,1e-10}; x0 in {None, random rank 1, rank 3}; all 12 combinations of "
-            "preconditioner x max_full x local_solver; seeds {%d,1,2}. Same contract as quick." % seed)
+            "preconditioner x max_full x local_solver; seeds {%d,1,2}. Same contract as quick (incl. guess_unchanged and the "
+            "round-3 x0=b / x0-used-twice cases on all shapes, 2 seeds)." % seed)
